@@ -9,7 +9,7 @@ from .. import db as D
 from .. import prog as P
 from .. import terms as T
 from ..rules import bound as B
-from . import c05
+from . import c05, c08
 
 META = ("EFFECT (no dynamic allocation in any function body, all preprocessor branches, positive control), INIT "
         "(every observer-visible state field initialised by every constructor), BOUND (indexed accesses through "
@@ -287,7 +287,8 @@ def bound_sites(chk, db, table, tier):
                 assume = [S.parse(ent["req"], f, ctx=ctx)]
             except Exception:
                 assume = None
-        sites, n = B.decide(db, f, {"this._begin": (lambda ctx: T.size_of("this", ctx), "_begin")}, assume=assume)
+        sites, n = B.decide(db, f, {"this._begin": (lambda ctx: T.size_of("this", ctx), "_begin")}, assume=assume,
+                            extra_hook=c08.view_hook)
         models += n
         report(f, sites, "")
     chk.extra["bound_models_evaluated"] = models
